@@ -3,6 +3,7 @@
 package redis
 
 import (
+	"sync"
 	"bufio"
 	"bytes"
 	"encoding/hex"
@@ -733,4 +734,63 @@ func c10Itos(t *testing.T) {
 	}
 	ev.Eval(n)
 	ev.Count("itos_values", n)
+}
+
+// TestVerif_C10Race: the first encodes and decodes of a process happen on several connections
+// at once (parallel restore / sync workers at start-up). 32 goroutines are released together,
+// each encodes integers, bulks and arrays and decodes them back; every round trip must hold.
+// A -race build reports tables or buffers shared without synchronisation.
+func TestVerif_C10Race(t *testing.T) {
+	defer ev.Flush("C10")
+	if ev.ReplayFile() != "" {
+		return
+	}
+	si, _ := ev.ShardInfo()
+	if si != 0 {
+		return
+	}
+	const workers = 32
+	start := make(chan struct{})
+	var wg sync.WaitGroup
+	var mu sync.Mutex
+	bad := ""
+	for w := 0; w < workers; w++ {
+		wg.Add(1)
+		go func(w int) {
+			defer wg.Done()
+			<-start
+			for r := 0; r < 200; r++ {
+				n := int64(w*1000 + r*7 - 1024)
+				tree := &respref.Node{Kind: '*', Elems: []*respref.Node{
+					{Kind: ':', Int: n}, leaf('$', strings.Repeat("x", (w*13+r)%600)), {Kind: ':', Int: int64(524288 - r + w)}, leaf('+', "OK"), {Kind: '$', Nil: true}}}
+				want := respref.Encode(tree)
+				got, err := EncodeToBytes(c10ToResp(tree))
+				why := ""
+				if err != nil || !bytes.Equal(got, want) {
+					why = fmt.Sprintf("Encode gave %q, expected %q (%v)", got, want, err)
+				} else if back, err := DecodeFromBytes(got); err != nil || !c10Equal(back, tree) {
+					why = fmt.Sprintf("Encode->Decode of %q does not return the value (%v)", want, err)
+				}
+				if why != "" {
+					mu.Lock()
+					if bad == "" {
+						bad = fmt.Sprintf("worker %d of %d started together, value %d: %s", w, workers, r, why)
+					}
+					mu.Unlock()
+					return
+				}
+			}
+		}(w)
+	}
+	close(start)
+	wg.Wait()
+	if bad != "" {
+		ev.Violate("C10|concurrent-first-use", bad, map[string]string{"sub": "race"})
+	}
+	n := int64(workers * 200)
+	ev.Eval(n)
+	ev.Trace(n)
+	ev.Trans(n)
+	ev.StatesAdd(n)
+	ev.NontrivialAdd(n)
 }
